@@ -328,7 +328,9 @@ def project(buf, schema):
     return [_elem_strict(t, buf[ov:ev], tab.get(t)) for t, _, ov, ev in stl.read_elements(buf)]
 
 
-TRUNC = {'t': [], 'leaf': True, 'fits': False, 'n': 0, 'runs': [], 'kids': []}
+def cut(raw):
+    """TlvModel.Cut: the bytes left at the end of a level that do not hold a complete Type and Length"""
+    return {'t': [], 'leaf': False, 'fits': False, 'n': len(raw), 'runs': runs_of_bytes(raw), 'kids': []}
 
 
 def project_raw(buf, schema, start=0, end=None, stats=None):
@@ -342,7 +344,7 @@ def project_raw(buf, schema, start=0, end=None, stats=None):
             t, s1 = stl.parse_var(buf, off, end, shortest=False)
             ln, s2 = stl.parse_var(buf, off + s1, end, shortest=False)
         except stl.TlvError:
-            out.append(dict(TRUNC))
+            out.append(cut(bytes(buf[off:end])))
             if stats is not None:
                 stats['trunc'] = stats.get('trunc', 0) + 1
             break
@@ -367,12 +369,12 @@ def project_raw(buf, schema, start=0, end=None, stats=None):
 
 def wire_of(elems, slack=1):
     """abstract tree whose leaves are byte runs -> bytes. fits = false: the element announces
-    `slack` bytes more than it has (so it overruns whatever encloses it); an element with
-    t = [] and fits = false is a cut header (a lone 0xFD)."""
+    `slack` bytes more than it has (so it overruns whatever encloses it); a Cut element
+    (leaf = false with runs) is written as its raw bytes."""
     out = bytearray()
     for e in elems:
-        if e['t'] == [] and not e['fits']:
-            out += b'\xfd'
+        if not e['leaf'] and e['runs']:          # cut header: its raw bytes
+            out += bytes_of_runs(e['runs'])
             continue
         body = bytes_of_runs(e['runs']) if e['leaf'] else wire_of(e['kids'], slack)
         ln = len(body) + (0 if e['fits'] else slack)
